@@ -6,6 +6,6 @@ d="/tmp/sb_$n"
 [ -e "$d" ] && { echo "$d exists"; exit 2; }
 mkdir -p "$d"
 git -C /repo worktree add --detach "$d/repo" HEAD >/dev/null 2>&1
-rsync -a --exclude target --exclude runs --exclude .git --exclude __pycache__ /verif/ "$d/verif/"
+rsync -a --exclude target --exclude runs --exclude .git --exclude __pycache__ --exclude states --exclude "*_TTrace_*" /verif/ "$d/verif/" || [ $? -eq 24 ]
 mkdir -p "$d/verif/runs"
 echo "sandbox: $d  (run: cd $d/verif && VERIF_REPO=$d/repo ./check <ID>)"
